@@ -1812,16 +1812,22 @@ func runC17NegRef(c *Ctx) {
 		c.anchorMissing("(*globValidator).validate")
 		return
 	}
-	// the successor taken when the first character is '!'
+	// the successor taken when the first character is '!': in validate itself, or in a helper of the validator that it
+	// hands the leading character to (the function split in two)
 	var bang *ssa.BasicBlock
-	for _, b := range fn.Blocks {
-		ifi, ok := b.Instrs[len(b.Instrs)-1].(*ssa.If)
-		if !ok {
+	for _, f := range p.withHelpers(fn, 1) {
+		if f != fn && !(f.Signature.Recv() != nil && pointeeName(f.Signature.Recv().Type()) == pointeeName(fn.Signature.Recv().Type())) {
 			continue
 		}
-		if bo, ok := ifi.Cond.(*ssa.BinOp); ok && bo.Op == token.EQL {
-			if k, ok := constInt(bo.Y); ok && k == '!' {
-				bang = b.Succs[0]
+		for _, b := range f.Blocks {
+			ifi, ok := b.Instrs[len(b.Instrs)-1].(*ssa.If)
+			if !ok {
+				continue
+			}
+			if bo, ok := ifi.Cond.(*ssa.BinOp); ok && bo.Op == token.EQL {
+				if k, ok := constInt(bo.Y); ok && k == '!' && bang == nil {
+					bang = b.Succs[0]
+				}
 			}
 		}
 	}
